@@ -203,7 +203,7 @@ def _check_part(m, cfg, out, ds):
     m.check("every column is the concatenation over CPU files of the stored values times its unit factor, rows aligned", m.And(fs),
             key=f"values:{tag}")
     if ndim > 1:
-        m.require("position" in g and hasattr(g["position"], "_xyz") and g["position"].nvec == ndim, "positions merged into a Vector",
+        m.require("position" in g and C.is_vec(g["position"]) and g["position"].nvec == ndim, "positions merged into a Vector",
                   key=f"vector:{tag}")
 
 
@@ -250,9 +250,9 @@ def _check_sink(m, cfg, out, ds):
     fs = []
     for ci, name in enumerate(out.sink_columns):
         if name in ("x", "y", "z") and ndim == 3 or (ndim == 2 and name in ("x", "y")):
-            arr = getattr(g["position"], name) if "position" in g and hasattr(g["position"], "_xyz") else (g[name] if name in g else None)
+            arr = getattr(g["position"], name) if "position" in g and C.is_vec(g["position"]) else (g[name] if name in g else None)
         elif name in ("vx", "vy", "vz"):
-            arr = getattr(g["v"], name[1]) if "v" in g and hasattr(g["v"], "_xyz") else (g[name] if name in g else None)
+            arr = getattr(g["v"], name[1]) if "v" in g and C.is_vec(g["v"]) else (g[name] if name in g else None)
         else:
             arr = g[name] if name in g else None
         if not m.require(arr is not None, f"sink column {name} present", key=f"column-missing:{tag}", info=name):
@@ -265,5 +265,5 @@ def _check_sink(m, cfg, out, ds):
             continue
         fs += [m.close(m.t(a) * f_l, m.t(out.sink_vals[r][ci]) * f_or) for r, a in enumerate(got)]
     m.check("every sink column equals the file's number times the unit expression of the unit line", m.And(fs), key=f"values:{tag}")
-    m.require("position" in g and hasattr(g["position"], "_xyz") and g["position"].nvec == ndim, "x,y,z merged into a position Vector",
+    m.require("position" in g and C.is_vec(g["position"]) and g["position"].nvec == ndim, "x,y,z merged into a position Vector",
               key=f"vector:{tag}")
